@@ -326,7 +326,7 @@ int base64_decode_block(unsigned char *t, const unsigned char *f, int n)
     unsigned long l;
 
     /* trim white space from the start of the line. */
-    while ((conv_ascii2bin(*f) == B64_WS) && (n > 0)) {
+    while ((n > 0) && (conv_ascii2bin(*f) == B64_WS)) {
         f++;
         n--;
     }
